@@ -496,6 +496,7 @@ pub fn run(tier_name: &str, seed: u64) -> i32 {
                     }
                     let c = &out.counters;
                     tally.bump("sched_steps", c.steps);
+                    tally.max("max_sched_steps_in_one_execution", c.steps);
                     tally.bump("sched_branching_points", c.branching);
                     tally.max("max_runnable_tasks", c.max_runnable as u64);
                     tally.bump("par_calls", c.n_par_calls);
